@@ -705,9 +705,21 @@ def r01_3(ctx: Ctx):
     obs = []
     su = ctx.prog.func("pyhms.initializers", "sample_uniform")
     bp = su.params()[0]
-    calls = [c for f in [su] + list(su.nested.values()) for c in body_walk(f.node) if isinstance(c, ast.Call) and norm(c.func).endswith("random.uniform")]
-    ok = len(calls) == 1 and len(calls[0].args) >= 2 and canon(calls[0].args[0]) == f"{bp}[:,0]" and canon(calls[0].args[1]) == f"{bp}[:,1]"
-    obs.append(ctx.ob("R01.3", su, calls[0] if calls else su.node, status=OK if ok else VIOLATION, detail="uniform draw between the lower and upper column of the bounds" if ok else f"sample_uniform draws `{norm(calls[0])[:80] if calls else '?'}`: not between bounds[:, 0] and bounds[:, 1]", construct="sample_uniform"))
+    calls = [(f, c) for f in [su] + list(su.nested.values()) for c in body_walk(f.node) if isinstance(c, ast.Call) and norm(c.func).endswith("random.uniform")]
+    st_u = INCONCLUSIVE
+    if len(calls) == 1:
+        uf, uc = calls[0]
+        udefs = local_defs(uf)
+        lo = uc.args[0] if uc.args else next((k.value for k in uc.keywords if k.arg == "low"), None)
+        hi = uc.args[1] if len(uc.args) > 1 else next((k.value for k in uc.keywords if k.arg == "high"), None)
+        lt, ht = (canon(lo, udefs) if lo is not None else "?"), (canon(hi, udefs) if hi is not None else "?")
+        if lt == f"{bp}[:,0]" and ht == f"{bp}[:,1]":
+            st_u = OK
+        elif (lt, ht) == (f"{bp}[:,1]", f"{bp}[:,0]") or (lo is None or hi is None) or (bp in lt and bp in ht and (isinstance(lo, (ast.BinOp, ast.Constant)) or isinstance(hi, (ast.BinOp, ast.Constant)))) or isinstance(lo, ast.Constant) or isinstance(hi, ast.Constant):
+            st_u = VIOLATION
+    calls = [c for _, c in calls]
+    ok = st_u == OK
+    obs.append(ctx.ob("R01.3", su, calls[0] if calls else su.node, status=st_u, detail="uniform draw between the lower and upper column of the bounds" if ok else f"sample_uniform draws `{norm(calls[0])[:80] if calls else '?'}`: not between bounds[:, 0] and bounds[:, 1]", construct="sample_uniform"))
     sn = ctx.prog.func("pyhms.initializers", "sample_normal")
     bp = "bounds"
     ib = sn.nested.get("in_bounds")
@@ -720,7 +732,7 @@ def r01_3(ctx: Ctx):
     from ..normalize import _expr_of_block
 
     body = [x for x in ib.node.body if not (isinstance(x, ast.Expr) and isinstance(x.value, ast.Constant))]
-    E = _expr_of_block(body, ast.Constant(value=None))
+    E = _expr_of_block(body, ast.Constant(value=None), allow_dup=True)
     st_ib = INCONCLUSIVE
     why = "cannot reduce in_bounds to one boolean expression"
     if E is not None:
@@ -736,28 +748,46 @@ def r01_3(ctx: Ctx):
         else:
             why = f"cannot decide whether `{norm(rets[-1].value)[:90] if rets else '?'}` implies all(x >= lower) and all(x <= upper)"
     obs.append(ctx.ob("R01.3", ib, rets[-1] if rets else ib.node, status=st_ib, detail="in_bounds implies all(x >= lower) and all(x <= upper)" if st_ib == OK else f"sample_normal: {why}", construct="in_bounds"))
-    loops = [n for n in body_walk(cr.node) if isinstance(n, ast.While)]
-    cdefs = local_defs(cr)
-    rets = [r for r in cr.node.body if isinstance(r, ast.Return)]
-    calls_ib = any(isinstance(c, ast.Call) and norm(c.func) == "in_bounds" for c in body_walk(cr.node))
-    st_l = INCONCLUSIVE
-    if len(loops) == 1 and len(rets) == 1 and isinstance(rets[0].value, ast.Name):
-        xv = rets[0].value.id
-        exits = [x for x in ast.walk(loops[0]) if isinstance(x, (ast.Break, ast.Return))]
-        from ..core import bool_equiv, parse_cond
+    # create(): every returned point has passed in_bounds since it was last assigned (typestate over create's CFG)
+    from ..cfg import typestate
 
-        exit_cond = ast.UnaryOp(op=ast.Not(), operand=loops[0].test)
-        exit_implies_inb = bool_equiv(ast.BoolOp(op=ast.Or(), values=[ast.UnaryOp(op=ast.Not(), operand=exit_cond), parse_cond(f"in_bounds({xv})")]), ast.Constant(value=True))
-        mentions_inb = any(isinstance(c, ast.Call) and norm(c.func) == "in_bounds" for c in ast.walk(loops[0].test))
-        if mentions_inb and exit_implies_inb is False:
-            st_l = VIOLATION  # the loop can be left while in_bounds(x) is false (an additional exit condition)
-        elif cond_is(loops[0].test, f"not in_bounds({xv})", {k: v for k, v in cdefs.items() if k != xv}) and any(isinstance(st, ast.Assign) and norm(st.targets[0]) == xv for st in loops[0].body) and not exits and cr.node.body.index(rets[0]) > cr.node.body.index(loops[0]):
-            st_l = OK
-        elif exits or cond_is(loops[0].test, f"in_bounds({xv})", cdefs):
-            st_l = VIOLATION
-    elif not loops and not calls_ib:
+    cfg = ctx.cfg(cr)
+    bad, unknown_ret, n_ret = [], [], 0
+
+    def assigned(n):
+        out = set()
+        if n.ast is not None and n.kind in ("stmt", "forhead", "withenter"):
+            for x in ast.walk(n.ast):
+                if isinstance(x, ast.Name) and isinstance(x.ctx, ast.Store):
+                    out.add(x.id)
+        return out
+
+    def node_fn(n, stt):
+        nonlocal n_ret
+        if n.kind == "return" and n.ast is not None:
+            v = n.ast.value if isinstance(n.ast, ast.Return) else n.ast
+            n_ret += 1
+            if isinstance(v, ast.Name):
+                if v.id not in stt:
+                    bad.append((n, stt))
+            elif v is not None:
+                unknown_ret.append(n)
+        a = assigned(n)
+        return [frozenset(stt - a)] if a else [stt]
+
+    def edge_fn(n, lab, stt):
+        if n.kind == "cond" and lab in (True, False) and isinstance(n.ast, ast.Call) and norm(n.ast.func) == "in_bounds" and len(n.ast.args) == 1 and isinstance(n.ast.args[0], ast.Name):
+            return frozenset(stt | {n.ast.args[0].id}) if lab else stt
+        return stt
+
+    typestate(cfg, [frozenset()], node_fn, edge_fn)
+    if bad:
         st_l = VIOLATION
-    obs.append(ctx.ob("R01.3", cr, loops[0] if loops else cr.node, status=st_l, detail="create() resamples until the point is in bounds and returns only then" if st_l == OK else "sample_normal.create can return a point that failed (or was never put to) the in_bounds test", construct="rejection-loop"))
+    elif unknown_ret or n_ret == 0:
+        st_l = INCONCLUSIVE
+    else:
+        st_l = OK
+    obs.append(ctx.ob("R01.3", cr, bad[0][0].stmt if bad else cr.node, status=st_l, detail="create() returns a point only after in_bounds accepted it" if st_l == OK else "sample_normal.create can return a point that failed (or was never put to) the in_bounds test" if st_l == VIOLATION else "cannot follow what sample_normal.create returns", construct="rejection-loop"))
     return obs
 
 
